@@ -15,6 +15,9 @@ from . import sched
 from .symarray import SymArray, shimmed
 
 Z3_TIMEOUT_MS = {'quick': 60_000, 'thorough': 600_000}
+RLIMIT_DEFAULT = {'quick': 2_000_000_000, 'thorough': 40_000_000_000}      # ~40x the largest count any query needs on the unchanged tree (quick: 4.8e7, see evidence max_solver_rlimit)
+RLIMIT = [int(os.environ.get('VERIF_RLIMIT', '0')) or RLIMIT_DEFAULT['quick']]      # set per contract run from RLIMIT_DEFAULT[tier] unless VERIF_RLIMIT overrides
+RL_MAX = [0]
 
 
 def ob(id_, verdict, **kw):
@@ -26,11 +29,21 @@ def ob(id_, verdict, **kw):
 def solve(constraints, timeout_ms=60_000):
     """returns ('unsat'|'sat'|'unknown', model|None, seconds, backend). z3 first, cvc5 takes z3's unknowns."""
     s = z3.Solver()
-    s.set('timeout', timeout_ms)
+    # the budget that decides 'unknown' is z3's deterministic resource counter (rlimit), so that verdicts do not depend on machine load;
+    # the wall-clock timeout is only a backstop, 10x the nominal budget
+    s.set('timeout', timeout_ms * 10)
+    s.set('rlimit', RLIMIT[0])
     s.add(*constraints)
     t0 = time.time()
     r = s.check()
     dt = time.time() - t0
+    try:
+        st = s.statistics()
+        rl = [st.get_key_value(k) for k in st.keys() if k == 'rlimit count']
+        if rl:
+            RL_MAX[0] = max(RL_MAX[0], int(rl[0]))
+    except Exception:
+        pass
     if r == z3.unsat:
         return 'unsat', None, dt, 'z3'
     if r == z3.sat:
@@ -197,13 +210,16 @@ def harness_guard(fn, oid, funcs):
                    detail='the harness (stubs/sentinels) cannot follow the code: ' + ''.join(traceback.format_exception(ex))[-1200:])]
 
 
+_REPO = os.environ.get('VERIF_REPO_ROOT', '/repo').rstrip('/')
+
+
 def from_repo(exc):
     """was the exception raised while code of /repo (or a loop body cut from it) was on the stack?
     (otherwise it comes from the harness/contract itself and is an engine fault, never a violation)"""
     tb = exc.__traceback__
     while tb is not None:
         fn = tb.tb_frame.f_code.co_filename
-        if fn.startswith('/repo/') or fn.startswith('<loopcut'):
+        if fn.startswith(_REPO + '/') or fn.startswith('<loopcut'):
             return True
         tb = tb.tb_next
     return False
@@ -232,6 +248,8 @@ def verify_contract(contract, shape, tier, rng, part=(0, 1), crosscheck=4):
     """explore the real function under the contract at one shape and discharge every obligation.
     Returns a list of obligation records."""
     timeout = Z3_TIMEOUT_MS[tier]
+    if not int(os.environ.get('VERIF_RLIMIT', '0')):
+        RLIMIT[0] = RLIMIT_DEFAULT[tier]
     prop = contract.prop
     base = f'{prop}.{contract.name}'
     sh = contract.shape_label(shape) if hasattr(contract, 'shape_label') else str(shape)
@@ -373,5 +391,5 @@ def verify_contract(contract, shape, tier, rng, part=(0, 1), crosscheck=4):
             out.append(ob(f'{base}.crosscheck[{sh}]', 'undecided', functions=funcs, tier='P', detail=f'engine: {ex}'))
             break
         out.append(ob(f'{base}.meta[{sh}]', 'meta', functions=funcs, tier='P', paths=len(paths), branch_solver_calls=nsol,
-                      explore_s=round(t_explore, 3), crosscheck_inputs=nx, backend='-'))
+                      explore_s=round(t_explore, 3), crosscheck_inputs=nx, backend='-', max_rlimit=RL_MAX[0]))
     return out
